@@ -327,7 +327,9 @@ fn rule(state: &mut BlockState, silent: bool) -> bool {
         if state.line_indent(next_line) >= 4 { break; }
 
         // fail if terminating block found
-        if state.test_rules_at_line() {
+        let terminated = state.test_rules_at_line();
+        state.line = next_line;
+        if terminated {
             break 'outer;
         }
 
